@@ -26,9 +26,12 @@ CONSTANTS
   ReuseEvicted = FALSE
   SharedKey = FALSE
   ChargeBeforeFit = FALSE
+  LimitInternal = FALSE
+  Aliases = {}
+  AliasTarget = "q1"
   WireSkipsStore <- MutOn
 SPECIFICATION Spec
-INVARIANTS TypeOK OneChargePerQuestion DropIsSilent ClientWithinBudget NoSharedBucket RememberedIsOwn ExemptNeverLimited
+INVARIANTS TypeOK OneChargePerQuestion DropIsSilent ClientWithinBudget NoSharedBucket RememberedIsOwn ExemptNeverLimited InternalNeverLimited
   ReplyCookieIsOwn AnswerCarriesCookie BadCookieSound VerifiedIsFree HandoffOnlyInline SameOutcomeAcrossEntries CookieRemembered
 PROPERTIES DropLeavesNoTrace EvictionOnlyResets BucketIsolation ExemptUntouched TokensNeverRefillWithoutTime
 CHECK_DEADLOCK FALSE
